@@ -93,9 +93,31 @@ def judgeLine (line : String) : String :=
 
 end GeomV.C15
 
+/-- up to `n` further non-empty input lines (fewer only at end of input) -/
+partial def GeomV.C15.readWindow (h : IO.FS.Stream) (n : Nat) (acc : Array String) : IO (Array String × Bool) := do
+  if acc.size ≥ n then return (acc, false)
+  let line ← h.getLine
+  if line.isEmpty then return (acc, true)
+  let l := (line.trimAscii).toString
+  GeomV.C15.readWindow h n (if l ≠ "" then acc.push l else acc)
+
+/-- `judgeLine` is a pure function of one line, so a window of lines is judged in chunks on Lean's
+task pool; the verdicts are collected in input order (the output is identical to `judge1`). -/
+def GeomV.C15.judgeWindow (lines : Array String) (chunk : Nat := 8) : Array (Task (Array String)) :=
+  (Array.range ((lines.size + chunk - 1) / chunk)).map fun c =>
+    Task.spawn fun _ => (lines.extract (c * chunk) ((c + 1) * chunk)).map GeomV.C15.judgeLine
+
+/-- windows bound the memory held at once (a thorough run has > 10^6 lines, some of 100 kB) -/
+partial def GeomV.C15.judgeStream (h out : IO.FS.Stream) (window : Nat) : IO Unit := do
+  let (lines, eof) ← GeomV.C15.readWindow h window #[]
+  for t in GeomV.C15.judgeWindow lines do
+    for v in t.get do out.putStrLn v
+  if !eof then GeomV.C15.judgeStream h out window
+
 open GeomV GeomV.C15 in
 def main (args : List String) : IO Unit := do
   let out ← IO.getStdout
   match args with
-  | ["judge"] => forEachLine fun l => out.putStrLn (judgeLine l)
-  | _ => IO.eprintln "usage: geomv_c15 judge"
+  | ["judge"] => judgeStream (← IO.getStdin) out 2048
+  | ["judge1"] => forEachLine fun l => out.putStrLn (judgeLine l)   -- sequential reference mode
+  | _ => IO.eprintln "usage: geomv_c15 judge|judge1"
